@@ -9,6 +9,12 @@ E2 = "explicit-state breadth-first search over operation sequences on the real o
 E1 = "stateless model checking of the real code under a controlled cooperative scheduler: every interleaving of the atomic/lock/channel steps of a small multi-goroutine harness (iterative preemption bounding, happens-before state matching), linearizability oracle + vector-clock race detection on every execution"
 
 claimed = {
+ "C10": dict(engine="E2 space", technique=E2, design="6 C10",
+   text="Explicit-state model checking on the real objects: Ring — BFS to the fix-point from capacities 1..4 over Push/Pop/Peek/PushWithExpand/Recap(-1..9)/Init, the canonical key holds head/tail/cap so every rotation x fill level at the moment of Recap/PushWithExpand is a distinct visited state; SyncRing (single goroutine) — Cap() for requested 1..1025 and 2^k-1,2^k,2^k+1 up to 2^20, and BFS over Push/Pop to depth 3*cap for capacities 2,4,8 from start states whose 32-bit counters were teleported to every position within 2*cap of 2^32 (wrap inside the window) and to 2^31+-1; every transition compared with a bounded FIFO model, every state with Len/IsEmpty/IsFull/Cap/Peek and a full drain. Thorough additionally performs 2^32+64 honest push/pop pairs.",
+   note="Trusted: the reflective canonical dump (isomorphic private graphs have identical futures); the counter teleport, itself validated against honest stepping (k <= 4*cap every run, 2^32+65 on thorough). Outside: capacities beyond 16 (Ring) / 8 (SyncRing behaviour), zero-value Ring."),
+ "C17": dict(engine="E3 enum", technique=E3, design="6 C17",
+   text="Model checking by bounded-exhaustive enumeration: every string of <= 5 runes (thorough 7) over {a,B,e-acute,CJK,emoji,_} and every byte string of <= 5 (7) bytes over {61,FF,C3,A9,E4,B8,F0,9F}, each with every start/length/end/limit argument from 0 to beyond the length (length -1 for Sub), 4 masks, 3 predicates; rune-slice definitions as oracle on valid text, no-panic on every text; snake/camel round trip on every identifier w(_w)* of <= 3 words over {a,ab,a1,b2c} with both firstUp flags.",
+   note="Trusted: unicode/utf8 and []rune conversions as oracle. Outside: strings longer than 7 symbols, runes outside the alphabet, negative arguments (not covered by the property)."),
  "C20": dict(engine="E3 enum", technique=E3, design="6 C20",
    text="Model checking by bounded-exhaustive enumeration: ParseBase32 on every byte string of length <= 3 over all 256 byte values and every single-byte corruption of longer numerals; Base32/Base2/Base36/String round trips for every ID below 2^20 (2^24 thorough) and all 2^k-1,2^k,2^k+1; IdGenerator for every randBit -1..24 x 6 start times x 5 scripted crypto/rand.Reader behaviours against a measured time bracket; StrGenerator for 11 character-set sizes x every script of <= 3 random-source words x n 0..20; CountGenerator for all rule pairs (triples thorough) x ids x elapsed times.",
    note="Trusted: math/big numerals as oracle; wall clock only through a bracket measured around each call. Outside the bound: IDs between 2^24 and 2^63 other than powers of two +-1, ParseBase32 inputs longer than 3 bytes with more than one invalid byte."),
